@@ -36,7 +36,11 @@ def _prog_task(task):
     from harness import lib_vpprog as P
 
     try:
-        if task["level"] == "program":
+        if task["level"] == "mixed":
+            from harness import lib_vpmixed as MX
+
+            r = MX.check_mixed(task["case"], task["seed"])
+        elif task["level"] == "program":
             r = P.c15_check_program(task["steps"], task["sel"], task["k"], task["kind"], task["at"], task["exc_id"])
         else:
             r = P.off_check_program(task["steps"], task["sel"], task["seed"])
@@ -138,6 +142,17 @@ def _run(ck: core.Check, pool):
                 tasks.append({"level": "off", "steps": steps, "sel": sel, "seed": rng.randrange(10**6)})
     except Exception as e:  # noqa: BLE001
         ck.broken("oracle", "C15 legacy / dtype program generator", f"{type(e).__name__}: {str(e)[:200]}")
+    # round 7: the BUILD must not depend on whether propagated values exist - mixed-opset programs (older-opset node
+    # adapted next to a v19 / v20 / v21 companion), constant-EXPRESSION operands, user names = the operator's field keys;
+    # built under NONE / REFERENCE / ONNXRUNTIME: same outcome, same nodes, same behaviour
+    try:
+        from harness import lib_vpmixed as MX
+
+        for t in sorted(MX.TEMPLATES):
+            for _ in range(ck.pick(4, 40)):
+                tasks.append({"level": "mixed", "case": MX.gen_mixed(rng, t), "seed": rng.randrange(10**6)})
+    except Exception as e:  # noqa: BLE001
+        ck.broken("oracle", "C15 mixed-opset program generator", f"{type(e).__name__}: {str(e)[:200]}")
     # fixed cases: constants spox propagates by itself (no backend): strings as str / UTF-8 bytes, NULs, non-ASCII
     fixed_consts = [
         [{"op": "const", "how": "value_string", "data": "ü", "bytes": True}],
@@ -178,7 +193,10 @@ def _run(ck: core.Check, pool):
         if r.get("infra"):
             pstats["infra"] += 1
             ck.notes.append(f"program case skipped: {r['infra']}"[:200]) if len(ck.notes) < 5 else None
-        if task["level"] == "program":
+        if task["level"] == "mixed":
+            pstats["mixed_opset_builds"] = pstats.get("mixed_opset_builds", 0) + 1
+            pstats["mixed_adapted"] = pstats.get("mixed_adapted", 0) + r.get("stats", {}).get("adapted", 0)
+        elif task["level"] == "program":
             pstats["fault_runs"] += 1
             pstats["effective_faults"] += int(bool(r.get("effective")))
             pstats["by_kind"][task["kind"]] = pstats["by_kind"].get(task["kind"], 0) + 1
